@@ -12,12 +12,12 @@ Import ListNotations.
 Require Import MV.Cfg.Skel MV.Cfg.SkelCheck MV.Cfg.SkelProofs.
 Require Import MV.Flow.SetExpr MV.Flow.MayAnalysis MV.Flow.Dataflow MV.Flow.DataflowProofs.
 
-Theorem liveness_sound_events_edge : forall (E : list edge) (ns : list lnode) (nl : bool) (f : fn),
-  incl_edges (cfg_fn f) E = true -> lv_sound_e E ns nl (reach_bwd E) = true ->
+Theorem liveness_sound_events_edge : forall (E : list edge) (ns : list lnode) (nl lam : bool) (f : fn),
+  incl_edges (cfg_fn f) E = true -> lv_sound_e E ns nl lam (reach_bwd E) = true ->
   forall n d tr o d', exec_fn n f d = (tr, o, d') -> o <> OFuel -> top_ok f = true -> guard_block (f_body f) = true ->
   normal_end o ->
   forall pre s mid k post x, tr = pre ++ s :: mid ++ k :: post ->
-    lgen ns nl k x ->
+    lgen ns nl lam k x ->
     (forall m nx, In (m, nx) (steps mid k) -> ~ dynw name (find_node ns) m nx x) ->
     memn x (n_out (find_node ns s)) = true /\ memn x (n_in (find_node ns (hd k mid))) = true.
 Proof. exact liveness_sound_events_edge_thm. Qed.
